@@ -140,7 +140,7 @@ def run(ctx):
                     ctx.ob('T2.reg', rm.fq, 'a traversed container registers its new parent under id(container) before its items are pushed', ok,
                            loc=loc(rm, o.node), path=p.describe() if not ok else None)
     if n_exit == 0 or n_enter == 0:
-        ctx.ob('T2.reg', rm.fq, 'remap calls enter and exit', False, loc=rm.loc, detail='exit sites %d enter sites %d' % (n_exit, n_enter))
+        ctx.unknown('T2.reg', rm.fq, 'enter()/exit() call sites not recognised (exit %d, enter %d)' % (n_exit, n_enter), rm.loc)
     # path bookkeeping: the key is appended to the path for every entered container except the root itself
     ext = []
     for n in ast.walk(rm.node):
